@@ -364,10 +364,18 @@ def canon_isd(isd, drop_nonpainting=False):
     return None
   regs = []
   for r in isd.iter_regions():
-    if drop_nonpainting and not r.has_children() and not paints(r):
+    if drop_nonpainting and not has_glyphs(r) and not paints(r):
       continue
     regs.append(_canon_el(r))
   return (repr(isd.get_active_area()), repr(isd.get_cell_resolution()), repr(isd.get_px_resolution()), str(isd.get_display_aspect_ratio()), isd.get_lang(), regs)
+
+
+def has_glyphs(e):
+  """does the subtree contain anything that occupies space: a non-empty text node or a line break?"""
+  for x in e.dfs_iterator():
+    if isinstance(x, m.Br) or (isinstance(x, m.Text) and x.get_text()):
+      return True
+  return False
 
 
 def paints(r):
@@ -757,7 +765,7 @@ def describe():
                    "reference": ["the same call on a pristine equal document; paint rule for empty regions"]},
     "assumptions": [
       "results are compared in canonical form: ISDs as nested tuples of region order, element kinds, ids, lang, space, computed styles (sorted by property name, repr of value) and text; writer outputs as strings",
-      "an empty region paints iff showBackground=always, background alpha>0, opacity>0, visibility visible, display auto and extent>0 (statement: 'empty regions that paint nothing')",
+      "a region is 'empty and paints nothing' iff its subtree holds no non-empty text node and no line break (elements without glyphs have no area) and its own background is not shown: showBackground=always, background alpha>0, opacity>0, visibility visible, display auto and extent>0",
       "a call that raises on the shared and on the pristine document alike is skipped (crash freedom is C18's subject)",
       "no pre-emption inside calls: the code is single-threaded and the property is stated at call granularity",
     ],
